@@ -14,7 +14,7 @@ RULE = ('one case = a repository produced by the real snapshot command (encrypte
         'objects of the same kind, replay of one object under the name of another, delete - applied singly - plus seeded pairs; after each, '
         'the real restore runs (no cache / cold cache / warm cache holding the undamaged snapshot) under a seeded schedule, and once more '
         'with the same cache directory when the first attempt raised; every fifth case restores once before the damage and once after it through the '
-        'same Repository object. Oracle: restore '
+        'same Repository object (and once more through it when that attempt raised). Oracle: restore '
         'raises, or the tree it produced equals the captured contents (of all snapshots, or of all but a snapshot whose object was made '
         'invisible). quick samples at most 160 damage cases per repository, thorough 1500. evaluations = damage cases run; '
         'distinct_nontrivial = distinct (object kind, damage kind, outcome) over all cases with their position bucket')
@@ -23,7 +23,7 @@ COMPONENTS = {
     'stub': ['OS thread scheduling', 'clocks', 'os.urandom', 'object store (SimStore) whose stored bytes are damaged between commands'],
 }
 ASSUMPTIONS = ['the adversary cannot compute keyed MACs (replay is under an existing name)', 'hash collisions do not occur']
-PROBES = ['same_instance_after_damage', 'retry_same_cache', 'flip', 'truncate', 'extend', 'swap', 'replay', 'delete', 'pair', 'restore_raised', 'restore_ok_intact', 'restore_ok_without_damaged_snapshot', 'warm_cache']
+PROBES = ['same_instance_after_damage', 'same_instance_retry_after_failure', 'retry_same_cache', 'flip', 'truncate', 'extend', 'swap', 'replay', 'delete', 'pair', 'restore_raised', 'restore_ok_intact', 'restore_ok_without_damaged_snapshot', 'warm_cache']
 TIERS = {'quick': {'budget_s': 45, 'batch': 1}, 'thorough': {'budget_s': 900, 'batch': 2}}
 
 
@@ -161,7 +161,14 @@ def run_case(case):
                     await repo.restore(path=Path(pre_target))
                     for d in plan:
                         apply(st.objects, d)
-                    r2 = await repo.restore(path=Path(target))
+                    try:
+                        r2 = await repo.restore(path=Path(target))
+                    except Exception:  # noqa
+                        # the caller tries once more through the same object: a failed attempt must not
+                        # turn the next one into a silent success
+                        H.probe('same_instance_retry_after_failure')
+                        shutil.rmtree(target, ignore_errors=True)
+                        r2 = await repo.restore(path=Path(target))
                     return {'files': r2.files}
                 r = W.run(client, two_restores, H.opts, state=st)
                 H.probe('same_instance_after_damage')
